@@ -122,6 +122,22 @@ func ruleBuildParse(c *Check, rule string) {
 	if okb && nb > 0 {
 		c.Ok(rule, bn+"/order", "BuildName writes SyncerName, InstanceID, timestamp (TimestampString or NameTimestamp(Timestamp)), GenerationID separated by \"__\", extras each preceded by \"__\", then \".\" and the extension", c.P.Pos(bf.Pos()))
 	}
+	// the extra item is written as it is: String() is the identity on the item's bytes
+	sn := "snapshot.(NameExtraItem).String"
+	if sf, sps := c.walkFn(rule, sn, WalkConfig{}); sps != nil {
+		rcv := param(sf, 0)
+		oks := len(sps) > 0
+		for i := range sps {
+			p := &sps[i]
+			if p.End != "return" || len(p.Rets) != 1 || !(p.Rets[0] == rcv || p.Rets[0] == "conv:string("+rcv+")") {
+				oks = false
+				c.Bad(rule, sn+"/identity", fmt.Sprintf("the extra item is written to the name as %v, not as the item itself: what ParseName reads back differs from what BuildName was given (a byte converted as a rune, a trimmed or re-assembled value)", p.Rets), c.pathPos(p), nil)
+			}
+		}
+		if oks {
+			c.Ok(rule, sn+"/identity", "NameExtraItem.String returns the item unchanged on every path: extras round-trip byte for byte", c.P.Pos(sf.Pos()))
+		}
+	}
 	// ParseName
 	pn := "snapshot.ParseName"
 	pf, pps := c.walkFn(rule, pn, WalkConfig{})
